@@ -106,18 +106,18 @@ func (s *wireScn) response() []byte {
 }
 
 type wireServer struct {
-	s         *wireScn
-	dials     int
-	conns     []*serverConn
-	requests  int
-	start     time.Time
+	s        *wireScn
+	dials    int
+	conns    []*serverConn
+	requests int
+	start    time.Time
 }
 
 type serverConn struct {
-	c          net.Conn
-	sawClose   bool
-	served     int
-	reqBodies  []int
+	c         net.Conn
+	sawClose  bool
+	served    int
+	reqBodies []int
 }
 
 // serve answers requests on one connection according to the scenario.
@@ -200,14 +200,14 @@ func runWire(t *testing.T, tape *kernel.Tape, s *wireScn) *kernel.Result {
 	kernel.DrawOrder(tape)
 	defer kernel.UninstallOrder()
 	type callOut struct {
-		ret      any
-		err      error
-		panicMsg string
-		returned bool
-		at       time.Duration
+		ret       any
+		err       error
+		panicMsg  string
+		returned  bool
+		at        time.Duration
 		readerRan bool
-		sawErr   error
-		got      int
+		sawErr    error
+		got       int
 	}
 	var (
 		first, second callOut
